@@ -149,22 +149,6 @@ instance (cfg : Cfg) (s : St) (d : Disk) (P : MView → Prop) [DecidablePred P] 
 
 def outsGrps (j : Job) : List Grp := j.outs.flatMap (·.2)
 
-/-- facts about the views of the admissible range that involve the in-memory state -/
-def ViewBounds (cfg : Cfg) (s : St) (d : Disk) : Prop :=
-  Holds (curManifest d) fun mf => ∀ k ≤ mf.unsynced.length, Holds (viewAt cfg mf k) fun v =>
-    v.sq ≤ s.seq ∧ v.nf ≤ s.nextFile ∧ (s.phase = .running → v.jn ≤ s.jcur)
-
-instance (cfg : Cfg) (s : St) (d : Disk) : Decidable (ViewBounds cfg s d) := by unfold ViewBounds; infer_instance
-
-/-- the session's manifest descriptor is `CURRENT`, except between `SetMeta` and the adoption of the new
-    manifest -/
-def MfdOK (s : St) (d : Disk) : Prop :=
-  match s.job.map (·.pc) with
-  | some (JPc.rotRemove m) => d.current = some m
-  | _ => s.manifestFd = d.current
-
-instance (s : St) (d : Disk) : Decidable (MfdOK s d) := by unfold MfdOK; split <;> infer_instance
-
 /-- has the edit not reached the manifest `CURRENT` names yet? -/
 def JPc.beforeCommit : JPc → Bool
   | .tCreate _ | .tWrite _ | .tSync _ | .mkJournal | .append | .rotWrite _ | .rotSync _ | .rotSetMeta _ => true
@@ -180,10 +164,54 @@ def JPc.post : JPc → Bool
   | .rmJ _ | .rmT _ | .rmM _ | .done => true
   | _ => false
 
+/-- a transaction's edit is in the manifest, `db.setSeq(tr.seq)` is still to come -/
+def TrWindow (s : St) : Prop := Holds s.job fun j => j.kind = .tr ∧ j.pc.beforeCommit = false
+
+instance (s : St) : Decidable (TrWindow s) := by unfold TrWindow; infer_instance
+
+/-- the sequence number the edit of job `j` may carry: `db.seq`, for a transaction its own last number -/
+def sqCap (s : St) (j : Job) : Nat :=
+  if j.kind = .tr then (match s.tr with | some g => g.fin - 1 | none => s.seq) else s.seq
+
+/-- the largest sequence number a manifest record can carry: `db.seq`, except between the commit of a
+    transaction and its `setSeq` -/
+def seqHi (s : St) : Nat :=
+  match s.job with
+  | some j => if j.pc.beforeCommit = false then sqCap s j else s.seq
+  | none => s.seq
+
+/-- facts about the views of the admissible range that involve the in-memory state -/
+def ViewBounds (cfg : Cfg) (s : St) (d : Disk) : Prop :=
+  Holds (curManifest d) fun mf => ∀ k ≤ mf.unsynced.length, Holds (viewAt cfg mf k) fun v =>
+    v.sq ≤ seqHi s ∧ v.nf ≤ s.nextFile ∧ (s.phase = .running → v.jn ≤ s.jcur)
+
+instance (cfg : Cfg) (s : St) (d : Disk) : Decidable (ViewBounds cfg s d) := by unfold ViewBounds; infer_instance
+
+/-- the session's manifest descriptor is `CURRENT`, except between `SetMeta` and the adoption of the new
+    manifest -/
+def MfdOK (s : St) (d : Disk) : Prop :=
+  match s.job.map (·.pc) with
+  | some (JPc.rotRemove m) => d.current = some m
+  | _ => s.manifestFd = d.current
+
+instance (s : St) (d : Disk) : Decidable (MfdOK s d) := by unfold MfdOK; split <;> infer_instance
+
 /-- no job, or its edit is not in the manifest yet -/
 def NoCommitYet (s : St) : Prop := Holds' s.job fun j => j.pc.beforeCommit = true
 
 instance (s : St) : Decidable (NoCommitYet s) := by unfold NoCommitYet; infer_instance
+
+/-- no memdb flush has put its edit into the manifest (a table compaction does not count: its edit changes
+    neither the journal nor the sequence number) -/
+def FlushPending (s : St) : Prop := Holds' s.job fun j => j.kind = .flush → j.pc.beforeCommit = true
+
+instance (s : St) : Decidable (FlushPending s) := by unfold FlushPending; infer_instance
+
+theorem NoCommitYet.flushPending {s : St} (h : NoCommitYet s) : FlushPending s := by
+  unfold NoCommitYet at h; unfold FlushPending
+  cases hj : s.job with
+  | none => trivial
+  | some j => rw [hj] at h; exact fun _ => h
 
 /-- sequence numbers around the group in flight -/
 def WSeqOK (s : St) : Prop :=
@@ -200,7 +228,7 @@ instance (s : St) : Decidable (WSeqOK s) := by unfold WSeqOK; split <;> infer_in
 def FrozenFacts (cfg : Cfg) (s : St) (d : Disk) (fz : List Grp) (jf : Nat) : Prop :=
   jf < s.jcur ∧ s.frozenSeq ≤ s.seq ∧ (∀ g ∈ fz, g.fin ≤ s.frozenSeq + 1) ∧
   (∀ g ∈ s.mem ++ inflight s.w, s.frozenSeq < g.seq) ∧ (∀ p ∈ d.journals, p.1 = jf → p.2.all = fz) ∧
-  (NoCommitYet s → (∃ p ∈ d.journals, p.1 = jf) ∧ Holds (lastView cfg d) fun v => v.jn ≤ jf ∧ v.sq ≤ s.frozenSeq)
+  (FlushPending s → (∃ p ∈ d.journals, p.1 = jf) ∧ Holds (lastView cfg d) fun v => v.jn ≤ jf ∧ v.sq ≤ s.frozenSeq)
 
 instance (cfg : Cfg) (s : St) (d : Disk) (fz : List Grp) (jf : Nat) : Decidable (FrozenFacts cfg s d fz jf) := by
   unfold FrozenFacts; infer_instance
@@ -220,9 +248,16 @@ theorem frozenOK_iff {cfg : Cfg} {s : St} {d : Disk} : FrozenOK cfg s d ↔
   unfold FrozenOK
   cases h1 : s.frozen <;> cases h2 : s.jfrozen <;> simp
 
+/-- an open transaction holds the write lock; `OpenTransaction` has flushed the write buffer; the transaction's
+    entries are numbered from `db.seq + 1` -/
+def TrOK (s : St) : Prop :=
+  Holds' s.tr fun g => s.w = .idle ∧ s.mem = [] ∧ s.frozen = none ∧ g.seq = s.seq + 1 ∧ g.sync = true
+
+instance (s : St) : Decidable (TrOK s) := by unfold TrOK; infer_instance
+
 /-- the writer and the buffers (running phase) -/
 structure RunOK (cfg : Cfg) (s : St) (d : Disk) : Prop where
-  norecov : s.recov = none
+  norecov : s.recov = none ∧ TrOK s
   mfd : MfdOK s d ∧ s.manifestOpen = true
   /-- the current journal holds exactly the groups of the write buffer, plus the one in flight -/
   jcur : Holds (lookup d.journals s.jcur) fun jf => jf.all = s.mem ++ inflight s.w
@@ -237,7 +272,7 @@ structure RunOK (cfg : Cfg) (s : St) (d : Disk) : Prop where
 
 instance (cfg : Cfg) (s : St) (d : Disk) : Decidable (RunOK cfg s d) :=
   decidable_of_iff
-    (s.recov = none ∧ (MfdOK s d ∧ s.manifestOpen = true) ∧
+    ((s.recov = none ∧ TrOK s) ∧ (MfdOK s d ∧ s.manifestOpen = true) ∧
      (Holds (lookup d.journals s.jcur) fun jf => jf.all = s.mem ++ inflight s.w) ∧
      (∀ p ∈ d.journals, p.1 ≤ s.jcur) ∧
      ((∀ p ∈ d.journals, p.1 < s.nextFile) ∧ Holds d.current (· < s.nextFile)) ∧
@@ -260,7 +295,7 @@ instance (s : St) (d : Disk) (r : Recov) : Decidable (MdbOK s d r) := by unfold 
 /-- `recoverJournal`'s loop (recovering phase) -/
 structure RecOK (cfg : Cfg) (s : St) (d : Disk) (r : Recov) : Prop where
   mfd : MfdOK s d
-  idle : s.w = .idle ∧ s.frozen = none
+  idle : s.w = .idle ∧ s.frozen = none ∧ s.tr = none
   todoSorted : r.todo.Pairwise (· < ·)
   ofdLt : ∀ o, r.ofd = some o → ∀ n ∈ r.todo, o < n
   nums : (∀ p ∈ d.journals, p.1 < s.nextFile) ∧ Holds d.current (· < s.nextFile) ∧ ∀ n ∈ r.todo, n < s.nextFile
@@ -277,7 +312,7 @@ structure RecOK (cfg : Cfg) (s : St) (d : Disk) (r : Recov) : Prop where
 
 instance (cfg : Cfg) (s : St) (d : Disk) (r : Recov) : Decidable (RecOK cfg s d r) :=
   decidable_of_iff
-    (MfdOK s d ∧ (s.w = .idle ∧ s.frozen = none) ∧ r.todo.Pairwise (· < ·) ∧
+    (MfdOK s d ∧ (s.w = .idle ∧ s.frozen = none ∧ s.tr = none) ∧ r.todo.Pairwise (· < ·) ∧
      (∀ o, r.ofd = some o → ∀ n ∈ r.todo, o < n) ∧
      ((∀ p ∈ d.journals, p.1 < s.nextFile) ∧ Holds d.current (· < s.nextFile) ∧ ∀ n ∈ r.todo, n < s.nextFile) ∧
      (∀ p ∈ d.journals, p.1 ∈ r.todo → ∀ g ∈ p.2.all, s.seq ≤ g.seq) ∧ MdbOK s d r ∧
@@ -296,16 +331,20 @@ def JobManifest (cfg : Cfg) (s : St) (d : Disk) (e : MRec) : JPc → Prop
     Settled cfg s d (Mirror s) ∧ some m ≠ d.current ∧ m < s.nextFile ∧ lookup d.manifests m = some ⟨[], []⟩
   | .rotSync m =>
     Settled cfg s d (Mirror s) ∧ some m ≠ d.current ∧ m < s.nextFile ∧
-    lookup d.manifests m = some ⟨[], [snapshotRec cfg s e]⟩
+    Holds (lookup d.manifests m) fun mf => Holds mf.unsynced.head? fun r =>
+      mf = ⟨[], [{ snapshotRec cfg s e with nf := r.nf }]⟩ ∧ m < r.nf ∧ r.nf ≤ s.nextFile ∧
+      (∀ t ∈ applyEdit s.live e, t < r.nf) ∧ e.jn.getD s.stJn < r.nf
   | .rotSetMeta m =>
     Settled cfg s d (Mirror s) ∧ some m ≠ d.current ∧ m < s.nextFile ∧
-    lookup d.manifests m = some ⟨[snapshotRec cfg s e], []⟩
+    Holds (lookup d.manifests m) fun mf => Holds mf.synced.head? fun r =>
+      mf = ⟨[{ snapshotRec cfg s e with nf := r.nf }], []⟩ ∧ m < r.nf ∧ r.nf ≤ s.nextFile ∧
+      (∀ t ∈ applyEdit s.live e, t < r.nf) ∧ e.jn.getD s.stJn < r.nf
   | .rotRemove m => d.current = some m ∧ s.manifestFd ≠ some m ∧
     Holds (curManifest d) fun mf => mf.unsynced = [] ∧ Holds (lastView cfg d) (MirrorE s e)
   | .sync =>
     s.manifestOpen = true ∧
-    Holds (curManifest d) fun mf => mf.unsynced = [{ e with nf := s.nextFile }] ∧
-      Holds (viewAt cfg mf 0) (Mirror s)
+    Holds (curManifest d) fun mf => (Holds mf.unsynced.head? fun r => mf.unsynced = [{ e with nf := r.nf }] ∧
+        r.nf ≤ s.nextFile) ∧ Holds (viewAt cfg mf 0) (Mirror s)
   | .install => s.manifestOpen = true ∧ Settled cfg s d (MirrorE s e)
   | .rmJ _ | .rmT _ | .rmM _ | .done =>
     s.manifestOpen = true ∧ Settled cfg s d (Mirror s) ∧ ∀ x, e.jn = some x → s.stJn = x
@@ -314,33 +353,36 @@ instance (cfg : Cfg) (s : St) (d : Disk) (e : MRec) (pc : JPc) : Decidable (JobM
   cases pc <;> simp only [JobManifest] <;> infer_instance
 
 /-- the obligations of a job's edit `e` relative to the last view `v` of the manifest, while the edit is
-    not yet there -/
+    not yet there; `e.jn`/`e.sq` may be absent (table compaction): the view keeps its numbers -/
 structure EditOK (s : St) (d : Disk) (j : Job) (e : MRec) (v : MView) : Prop where
-  shape : e.deleted = [] ∧ e.added = j.outs.map (·.1) ∧ e.torn = false ∧ e.snapshot = false ∧
-    e.jn.isSome ∧ e.sq.isSome
+  shape : e.added = j.outs.map (·.1) ∧ e.torn = false ∧ e.snapshot = false
+  /-- deleted tables are live, and their groups are contained in the output tables -/
+  dels : (∀ t ∈ e.deleted, t ∈ v.live) ∧ ∀ g ∈ e.deleted.flatMap (tableGrpsOf d), g ∈ outsGrps j
   /-- journals the new view skips are contained in the output tables -/
-  skip : ∀ p ∈ d.journals, v.jn ≤ p.1 → p.1 < e.jn.getD 0 → ∀ g ∈ p.2.all, g ∈ outsGrps j
-  outs : ∀ g ∈ outsGrps j, g.fin ≤ e.sq.getD 0 + 1 ∧ g ∈ issuedGrps s ∧ g.recs ≠ [] ∧
-    (∀ h ∈ liveGrps d v, h.fin ≤ g.seq) ∧ ∀ h ∈ outsGrps j, Disj g h
-  keep : ∀ p ∈ d.journals, e.jn.getD 0 ≤ p.1 → ∀ g ∈ p.2.all, e.sq.getD 0 ≤ g.seq ∧ ∀ h ∈ outsGrps j, h.fin ≤ g.seq
-  mono : v.jn ≤ e.jn.getD 0 ∧ v.sq ≤ e.sq.getD 0 ∧ e.sq.getD 0 ≤ s.seq ∧
-    (s.phase = .running → e.jn.getD 0 ≤ s.jcur) ∧ e.jn.getD 0 < s.nextFile
+  skip : ∀ p ∈ d.journals, v.jn ≤ p.1 → p.1 < e.jn.getD v.jn → ∀ g ∈ p.2.all, g ∈ outsGrps j
+  outs : ∀ g ∈ outsGrps j, g.fin ≤ e.sq.getD v.sq + 1 ∧ g ∈ issuedGrps s ∧ g.recs ≠ [] ∧
+    (∀ h ∈ liveGrps d v, Disj g h) ∧ ∀ h ∈ outsGrps j, Disj g h
+  keep : ∀ p ∈ d.journals, e.jn.getD v.jn ≤ p.1 → ∀ g ∈ p.2.all,
+    e.sq.getD v.sq ≤ g.seq ∧ ∀ h ∈ outsGrps j, h.fin ≤ g.seq
+  mono : v.jn ≤ e.jn.getD v.jn ∧ v.sq ≤ e.sq.getD v.sq ∧ e.sq.getD v.sq ≤ sqCap s j ∧
+    (s.phase = .running → e.jn.getD v.jn ≤ s.jcur) ∧ e.jn.getD v.jn < s.nextFile
   fresh : ∀ o ∈ j.outs, v.nf ≤ o.1 ∧ o.1 < s.nextFile
 
 set_option synthInstance.maxSize 2000 in
 set_option synthInstance.maxHeartbeats 200000 in
 instance (s : St) (d : Disk) (j : Job) (e : MRec) (v : MView) : Decidable (EditOK s d j e v) :=
   decidable_of_iff
-    ((e.deleted = [] ∧ e.added = j.outs.map (·.1) ∧ e.torn = false ∧ e.snapshot = false ∧
-        e.jn.isSome ∧ e.sq.isSome) ∧
-     (∀ p ∈ d.journals, v.jn ≤ p.1 → p.1 < e.jn.getD 0 → ∀ g ∈ p.2.all, g ∈ outsGrps j) ∧
-     (∀ g ∈ outsGrps j, g.fin ≤ e.sq.getD 0 + 1 ∧ g ∈ issuedGrps s ∧ g.recs ≠ [] ∧
-        (∀ h ∈ liveGrps d v, h.fin ≤ g.seq) ∧ ∀ h ∈ outsGrps j, Disj g h) ∧
-     (∀ p ∈ d.journals, e.jn.getD 0 ≤ p.1 → ∀ g ∈ p.2.all, e.sq.getD 0 ≤ g.seq ∧ ∀ h ∈ outsGrps j, h.fin ≤ g.seq) ∧
-     (v.jn ≤ e.jn.getD 0 ∧ v.sq ≤ e.sq.getD 0 ∧ e.sq.getD 0 ≤ s.seq ∧
-        (s.phase = .running → e.jn.getD 0 ≤ s.jcur) ∧ e.jn.getD 0 < s.nextFile) ∧
+    ((e.added = j.outs.map (·.1) ∧ e.torn = false ∧ e.snapshot = false) ∧
+     ((∀ t ∈ e.deleted, t ∈ v.live) ∧ ∀ g ∈ e.deleted.flatMap (tableGrpsOf d), g ∈ outsGrps j) ∧
+     (∀ p ∈ d.journals, v.jn ≤ p.1 → p.1 < e.jn.getD v.jn → ∀ g ∈ p.2.all, g ∈ outsGrps j) ∧
+     (∀ g ∈ outsGrps j, g.fin ≤ e.sq.getD v.sq + 1 ∧ g ∈ issuedGrps s ∧ g.recs ≠ [] ∧
+        (∀ h ∈ liveGrps d v, Disj g h) ∧ ∀ h ∈ outsGrps j, Disj g h) ∧
+     (∀ p ∈ d.journals, e.jn.getD v.jn ≤ p.1 → ∀ g ∈ p.2.all,
+        e.sq.getD v.sq ≤ g.seq ∧ ∀ h ∈ outsGrps j, h.fin ≤ g.seq) ∧
+     (v.jn ≤ e.jn.getD v.jn ∧ v.sq ≤ e.sq.getD v.sq ∧ e.sq.getD v.sq ≤ sqCap s j ∧
+        (s.phase = .running → e.jn.getD v.jn ≤ s.jcur) ∧ e.jn.getD v.jn < s.nextFile) ∧
      (∀ o ∈ j.outs, v.nf ≤ o.1 ∧ o.1 < s.nextFile))
-    ⟨fun ⟨a, b, c, e, f, g⟩ => ⟨a, b, c, e, f, g⟩, fun ⟨a, b, c, e, f, g⟩ => ⟨a, b, c, e, f, g⟩⟩
+    ⟨fun ⟨a, a', b, c, e, f, g⟩ => ⟨a, a', b, c, e, f, g⟩, fun ⟨a, a', b, c, e, f, g⟩ => ⟨a, a', b, c, e, f, g⟩⟩
 
 /-- what ties a job to the thread that spawned it -/
 def JobKindOK (s : St) (j : Job) : Prop :=
@@ -359,7 +401,10 @@ def JobKindOK (s : St) (j : Job) : Prop :=
       Holds s.recov fun r => r.todo = [] ∧ (j.rmJournals = r.ofd.toList ∧ ∀ o ∈ j.rmJournals, Holds j.mkJournal (o < ·)) ∧
         (j.outs = [] ∧ r.mdb = [] ∨ j.outs = [(j.outs.head?.map (·.1) |>.getD 0, r.mdb)]) ∧
         Holds j.mkJournal fun n => Holds j.edit fun e => e.jn = some n ∧ e.sq = some s.seq
-  | _ => False
+  | .compaction => s.phase = .running ∧ j.mkJournal = none ∧ j.rmJournals = [] ∧ j.edit.isSome
+  | .tr => s.phase = .running ∧ j.mkJournal = none ∧ j.rmJournals = [] ∧ j.rmTables = [] ∧
+      Holds s.tr fun g => Holds j.edit fun e => e.jn = none ∧ e.sq = some (g.fin - 1) ∧
+        j.outs = [(e.added.headD 0, [g])] ∧ g.recs ≠ [] ∧ g ∈ issuedGrps s
 
 instance (s : St) (j : Job) : Decidable (JobKindOK s j) := by
   unfold JobKindOK; split
@@ -391,7 +436,7 @@ def RemovalsOK (s : St) (d : Disk) (j : Job) (v : MView) : Prop :=
   match j.pc with
   | .rmJ rest => (∀ n ∈ rest, (n < v.jn ∨ (n < s.jcur ∧ ∀ p ∈ d.journals, p.1 = n → p.2.all = [])) ∧
         ∀ x, j.mkJournal = some x → n < x) ∧
-      ∀ t ∈ j.rmTables, t ∉ v.live
+      (∀ t ∈ j.rmTables, t ∉ v.live) ∧ (j.kind = .compaction ∨ j.kind = .tr → rest = [])
   | .rmT rest => ∀ t ∈ rest, t ∉ v.live
   | .rmM rest => ∀ m ∈ rest, some m ≠ d.current
   | _ => True
@@ -419,8 +464,18 @@ def JobManifestOK (cfg : Cfg) (s : St) (d : Disk) (j : Job) : Prop :=
 instance (cfg : Cfg) (s : St) (d : Disk) (j : Job) : Decidable (JobManifestOK cfg s d j) := by
   unfold JobManifestOK; split <;> infer_instance
 
+/-- what the edit deletes, by job kind -/
+def InputsOK (s : St) (d : Disk) (j : Job) (e : MRec) : Prop :=
+  if j.kind = .compaction then
+    e.jn = none ∧ e.sq = none ∧ e.deleted = j.rmTables ∧ (∀ t ∈ e.deleted, ∀ o ∈ j.outs, t < o.1) ∧
+    (j.pc.beforeCommit = true → (∀ t ∈ e.deleted, t ∈ s.live) ∧ outsGrps j = e.deleted.flatMap (tableGrpsOf d))
+  else e.deleted = [] ∧ (j.kind ≠ .tr → e.jn.isSome) ∧ e.sq.isSome
+
+instance (s : St) (d : Disk) (j : Job) (e : MRec) : Decidable (InputsOK s d j e) := by
+  unfold InputsOK; split <;> infer_instance
+
 structure JobOK (cfg : Cfg) (s : St) (d : Disk) (j : Job) : Prop where
-  one : j.outs.length ≤ 1 ∧ (j.rmTables = [] ∨ j.kind = .recovFinal)
+  one : j.outs.length ≤ 1 ∧ (j.rmTables = [] ∨ j.kind = .recovFinal ∨ j.kind = .compaction)
   kind : JobKindOK s j
   manifest : JobManifestOK cfg s d j
   /-- output table numbers are unused and above everything an admissible view knows -/
@@ -428,31 +483,38 @@ structure JobOK (cfg : Cfg) (s : St) (d : Disk) (j : Job) : Prop where
     Holds (curManifest d) fun mf => ∀ k ≤ mf.unsynced.length, Holds (viewAt cfg mf k) fun v =>
       (∀ o ∈ j.outs, v.nf ≤ o.1) ∧ ∀ n, j.mkJournal = some n → v.nf ≤ n)
   /-- the edit is well-formed -/
-  shape : Holds' j.edit fun e => e.deleted = [] ∧ e.added = j.outs.map (·.1) ∧ e.torn = false ∧
-    e.snapshot = false ∧ e.jn.isSome ∧ e.sq.isSome
+  shape : Holds' j.edit fun e => e.added = j.outs.map (·.1) ∧ e.torn = false ∧ e.snapshot = false
   tables : ∀ i o, j.outs[i]? = some o → OutOK d j.pc i o
   pcIdx : PcIdxOK j
   mkj : MkJournalOK s d j
   removals : Holds (lastView cfg d) (RemovalsOK s d j)
   /-- a job without an edit (an empty frozen memdb is dropped) only removes -/
   noedit : j.edit = none → j.pc.post = true
+  /-- only a table compaction deletes tables: its inputs, which are live until the commit and whose groups
+      are exactly those of its output; its edit carries neither a journal nor a sequence number -/
+  inputs : Holds' j.edit fun e => InputsOK s d j e
+  /-- once the edit is in the manifest the output tables are live in its last view and stay on disk -/
+  committed : j.pc.beforeCommit = false → Holds (lastView cfg d) fun v =>
+    ∀ o ∈ j.outs, o.1 ∈ v.live ∧ lookup d.tables o.1 = some ⟨o.2, true, false⟩
 
 instance (cfg : Cfg) (s : St) (d : Disk) (j : Job) : Decidable (JobOK cfg s d j) :=
   decidable_of_iff
-    ((j.outs.length ≤ 1 ∧ (j.rmTables = [] ∨ j.kind = .recovFinal)) ∧ JobKindOK s j ∧ JobManifestOK cfg s d j ∧
+    ((j.outs.length ≤ 1 ∧ (j.rmTables = [] ∨ j.kind = .recovFinal ∨ j.kind = .compaction)) ∧ JobKindOK s j ∧
+     JobManifestOK cfg s d j ∧
      ((∀ o ∈ j.outs, o.1 < s.nextFile) ∧ (j.pc.beforeCommit = true →
         Holds (curManifest d) fun mf => ∀ k ≤ mf.unsynced.length, Holds (viewAt cfg mf k) fun v =>
           (∀ o ∈ j.outs, v.nf ≤ o.1) ∧ ∀ n, j.mkJournal = some n → v.nf ≤ n)) ∧
-     (Holds' j.edit fun e => e.deleted = [] ∧ e.added = j.outs.map (·.1) ∧ e.torn = false ∧
-        e.snapshot = false ∧ e.jn.isSome ∧ e.sq.isSome) ∧
+     (Holds' j.edit fun e => e.added = j.outs.map (·.1) ∧ e.torn = false ∧ e.snapshot = false) ∧
      (∀ i ∈ List.range j.outs.length, ∀ o, j.outs[i]? = some o → OutOK d j.pc i o) ∧
      PcIdxOK j ∧ MkJournalOK s d j ∧ Holds (lastView cfg d) (RemovalsOK s d j) ∧
-     (j.edit = none → j.pc.post = true))
-    ⟨fun ⟨a, b, c, e, e', f, g, h, i, k'⟩ => ⟨a, b, c, e, e',
+     (j.edit = none → j.pc.post = true) ∧ (Holds' j.edit fun e => InputsOK s d j e) ∧
+     (j.pc.beforeCommit = false → Holds (lastView cfg d) fun v =>
+        ∀ o ∈ j.outs, o.1 ∈ v.live ∧ lookup d.tables o.1 = some ⟨o.2, true, false⟩))
+    ⟨fun ⟨a, b, c, e, e', f, g, h, i, k', l, m⟩ => ⟨a, b, c, e, e',
         fun k o hk => f k (by
           rw [List.mem_range]
-          exact (List.getElem?_eq_some_iff.1 hk).1) o hk, g, h, i, k'⟩,
-     fun ⟨a, b, c, e, e', f, g, h, i, k'⟩ => ⟨a, b, c, e, e', fun k _ o hk => f k o hk, g, h, i, k'⟩⟩
+          exact (List.getElem?_eq_some_iff.1 hk).1) o hk, g, h, i, k', l, m⟩,
+     fun ⟨a, b, c, e, e', f, g, h, i, k', l, m⟩ => ⟨a, b, c, e, e', fun k _ o hk => f k o hk, g, h, i, k', l, m⟩⟩
 
 /-- sequence number and next-file number never decrease along the admissible views of the current manifest,
     and the manifest's own number lies below every recorded next-file number -/
@@ -469,14 +531,14 @@ structure Inv (cfg : Cfg) (s : St) (d : Disk) : Prop where
   bounds : s.phase ≠ .crashed → ViewBounds cfg s d
   run : s.phase = .running → RunOK cfg s d
   recov : s.phase = .recovering → Holds s.recov (RecOK cfg s d)
-  crashed : s.phase = .crashed → s.job = none ∧ s.w = .idle ∧ s.frozen = none
+  crashed : s.phase = .crashed → s.job = none ∧ s.w = .idle ∧ s.frozen = none ∧ s.tr = none
   job : Holds' s.job (JobOK cfg s d)
 
 instance (cfg : Cfg) (s : St) (d : Disk) : Decidable (Inv cfg s d) :=
   decidable_of_iff
     (DiskOK cfg d (must s) (issuedGrps s) ∧ ManifestMono cfg d ∧ (s.phase ≠ .crashed → ViewBounds cfg s d) ∧
      (s.phase = .running → RunOK cfg s d) ∧ (s.phase = .recovering → Holds s.recov (RecOK cfg s d)) ∧
-     (s.phase = .crashed → s.job = none ∧ s.w = .idle ∧ s.frozen = none) ∧ Holds' s.job (JobOK cfg s d))
+     (s.phase = .crashed → s.job = none ∧ s.w = .idle ∧ s.frozen = none ∧ s.tr = none) ∧ Holds' s.job (JobOK cfg s d))
     ⟨fun ⟨a, a', b, c, e, f, g⟩ => ⟨a, a', b, c, e, f, g⟩, fun ⟨a, a', b, c, e, f, g⟩ => ⟨a, a', b, c, e, f, g⟩⟩
 
 end GoLevel.Dur
